@@ -4,6 +4,7 @@ package main
 import (
 	"verif/internal/fw"
 
+	_ "verif/checks/c01"
 	_ "verif/checks/c02"
 	_ "verif/checks/c03"
 	_ "verif/checks/c15"
